@@ -103,9 +103,15 @@ K("awkward_ListOffsetArray_rpad_and_clip_axis1",
   serves=["C09", "C12", "C13"])
 
 K("awkward_ListOffsetArray_rpad_length_axis1",
-  extents={"tooffsets": "fromlength + 1"},
-  per_spec={"U32": {"requires": [SORTED("fromoffsets", "fromlength + 1")]}},
-  serves=["C09", "C12", "C13"])
+  extents={"tooffsets": "fromlength + 1", "tolength": "1"},
+  requires=[SORTED("fromoffsets", "fromlength + 1")],
+  # closure (C11): the offsets handed to the new ListOffsetArray start at 0, never decrease and end at the
+  # length of the index buffer the caller allocates from *tolength
+  loops={"L0": ["0 <= i", "tooffsets[0] == 0", "length == tooffsets[i]",
+                "forall(q, 0, i, tooffsets[q + 1] - tooffsets[q] == max(fromoffsets[q + 1] - fromoffsets[q], target))"]},
+  ensures_ok=["tooffsets[0] == 0", "tolength[0] == tooffsets[fromlength]",
+              "forall(q, 0, fromlength, tooffsets[q + 1] - tooffsets[q] == max(fromoffsets[q + 1] - fromoffsets[q], target))"],
+  serves=["C09", "C11", "C12", "C13"])
 
 K("awkward_ListOffsetArray_getitem_adjust_offsets_index",
   extents={"originalmask": "masklength", "fromoffsets": "length + 1", "tooffsets": "length + 1"},
